@@ -154,6 +154,40 @@ def run_config(cfg, res):
         if why:
           report('mismatch/pause-during-segment', why, stream, exp, 'pause at datapoint %d of %d, %d segments' % (at, len(exp), len(segs)), got)
           return
+    # the sender goes away in the middle of the stream (orderly close): what had arrived completely is ingested, the
+    # unfinished rest (half a line, half a frame) is not a datapoint
+    if n > 3:
+      ends = []          # (end offset in the stream, number of datapoints complete at that offset)
+      if cls is P.MetricLineReceiver:
+        pos, cnt = 0, 0
+        for ln in stream.split(b'\n')[:-1]:
+          pos += len(ln) + 1
+          if ln.strip():
+            cnt += 1
+          ends.append((pos, cnt))
+      else:
+        import pickle as _pickle
+        import struct as _struct
+        pos, cnt = 0, 0
+        while pos + 4 <= n:
+          ln_ = _struct.unpack('!I', stream[pos:pos + 4])[0]
+          try:
+            cnt += len(_pickle.loads(stream[pos + 4:pos + 4 + ln_], encoding='utf-8'))
+          except Exception:
+            break
+          pos += 4 + ln_
+          ends.append((pos, cnt))
+      if ends and ends[-1][1] == len(exp):
+        for k in sorted(set(r.randrange(1, n) for _ in range(6))):
+          done = max([c for e, c in ends if e <= k] or [0])
+          part = stream[:k]
+          segs = proto.cut(part, sorted(set(r.randrange(1, k) for _ in range(r.choice([0, 1, 3]))))) if k > 2 else [part]
+          o = proto.tcp_session(cls, segs, rec)
+          res.count('sessions_cut_short_by_the_sender')
+          why = ('exception %r' % o['exc']) if o['exc'] else proto.same_points(o['got'], exp[:done])
+          if why:
+            report('mismatch/sender-closed-mid-stream', why, stream, exp[:done], 'first %d of %d bytes, then an orderly close' % (k, n), o['got'])
+            return
     # two connections fed alternately with differently cut copies of the stream: per-connection state must not mix
     if n > 4:
       from twisted.internet.testing import StringTransport
@@ -217,6 +251,25 @@ def run_config(cfg, res):
             report('mismatch/long-name', why, stream, exp, '%s, name of %d bytes' % (desc, len(name.encode('utf-8'))), o['got'])
             break
         res.case(('long', cfg['proto'], L, alpha), True)
+  # big frames: thousands of datapoints in one pickle frame (a relay with a large MAX_DATAPOINTS_PER_MESSAGE), more
+  # frames right behind it in the same read; anything carbon defers with reactor.callLater(0) is run between reads
+  if cfg['proto'] == 'pickle' and cfg['shard'] in (0, 1):
+    for nbig in ((1001, 2500) if cfg['tier'] == 'quick' else (1000, 1001, 2500, 5000, 12000)):
+      big = [('big.%d' % i, (float(1600000000 + i), float(i))) for i in range(nbig)]
+      small = [('after.%d' % i, (float(1700000000 + i), -1.5)) for i in range(3)]
+      stream = codec.encode_pickle_frame(big, protocol=2) + codec.encode_pickle_frame(small, protocol=2) + codec.encode_pickle_frame(small[:1], protocol=0)
+      exp = big + small + small[:1]
+      n_ = len(stream)
+      for segs, desc in [([stream], 'whole'), ([stream[i:i + 65536] for i in range(0, n_, 65536)], 'chunks64k'),
+                         (proto.cut(stream, sorted(set(r.randrange(1, n_) for _ in range(4)))), 'random4')]:
+        o = proto.tcp_session(P.MetricPickleReceiver, segs, rec, clock=clk, gaps=[0.001] if clk is not None else None)
+        res.count('segmentations_executed')
+        res.count('big_frame_sessions')
+        why = ('exception %r' % o['exc']) if o['exc'] else ('connection closed' if o['disconnecting'] else proto.same_points(o['got'], exp))
+        if why:
+          report('mismatch/big-frame', why, stream[:300], exp[:3], '%s, frame of %d datapoints' % (desc, nbig), o['got'])
+          break
+      res.case(('bigframe', nbig), True)
   for case in range(ncases):
     npoints = r.choice([1, 2, 3, 5, 8, 13, 25, 40]) if case % 4 else r.choice([1, 2])
     pts = []
